@@ -1,3 +1,4 @@
 pub mod refhash;
 pub mod util;
 pub mod fam_hash;
+pub mod fam_hll;
